@@ -174,6 +174,15 @@ class ByteDomain(exchange.ExchangeDomain):
                     return [r for r in res if r[0] == "ok"]
         if name in ("partial", "functools.partial") and args and isinstance(args[0], FuncRef):
             return [("ok", args[0], state)]
+        if isinstance(node.func, ast.Name) and node.func.id in self.module.functions and node.func.id not in self.readers and any(isinstance(a, ast.Name) and isinstance(state.get(a.id, None), Chunk) for a in node.args):
+            # a module-level helper that is handed a chunk (e.g. one that cuts it around the terminator): the chunk flows
+            # into it, what it hands back of it is fresh in the caller
+            st = state
+            for a in list(node.args) + [k.value for k in node.keywords]:
+                st = self._save(st, a)
+            res = self.inline(node, self.module.functions[node.func.id], args, kwargs, st)
+            if res is not None:
+                return [r for r in res if r[0] == "ok"]
         return [("ok", TOP, state)]
 
     def apply_lambda(self, node, lam, args, kwargs, state):
